@@ -13,6 +13,15 @@ Definition bytes (s : string) : list Z := map (fun c => Z.of_nat (nat_of_ascii c
    so that the extracted code contains no Coq strings *)
 Notation B s := (ltac:(let v := eval vm_compute in (bytes s) in exact v)) (only parsing).
 
+(* the constants, by name (for statements in files that do not open string notations) *)
+Definition S_OK : list Z := B "OK".
+Definition S_PARTIAL : list Z := B "Partial Content".
+Definition S_RANGE : list Z := B "range".
+Definition S_CONTENT_RANGE : list Z := B "Content-Range: bytes ".
+Definition S_CONNECTION : list Z := B "connection".
+Definition S_CLOSE : list Z := B "close".
+Definition S_NOT_FOUND : list Z := B "Not Found".
+
 (* std::to_string of an int *)
 Fixpoint dec_digits (fuel : nat) (n : Z) (acc : list Z) : list Z :=
   match fuel with
